@@ -17,6 +17,7 @@ import (
 	"runtime/debug"
 	"slices"
 	"sync"
+	"time"
 )
 
 const (
@@ -49,6 +50,11 @@ type vsimTask struct {
 	wokeStep  int // step number at which the task last resumed from a blocking operation / started
 }
 
+type vsimCBRec struct {
+	name string
+	at   time.Time
+}
+
 type vsimLockState struct {
 	owner   *vsimTask
 	readers map[*vsimTask]int
@@ -73,6 +79,7 @@ type vsimSim struct {
 	yieldPPM uint32 // probability (per million) of a voluntary yield at a lock acquisition
 
 	lastLib    string
+	cbLog      []vsimCBRec // every timer callback with its (virtual) firing time
 	panicked   bool
 	panicMsg   string
 	harnessErr string
@@ -567,6 +574,7 @@ func vsimStartCB(recv any) func() {
 	s.mu.Lock()
 	n := s.cbSeq[base]
 	s.cbSeq[base] = n + 1
+	s.cbLog = append(s.cbLog, vsimCBRec{base, time.Now()})
 	s.mu.Unlock()
 	t := s.newTask(fmt.Sprintf("%s#%d", base, n))
 	t.owner = vsimOwnerOf(recv)
